@@ -9,6 +9,7 @@ multiprocessing.Pool.imap (T-POOL) and is *not* verified.
 """
 from __future__ import annotations
 import itertools
+import os
 import z3
 
 from pyvc.interp import explore, NativeAbs, PyRaise, Interp
@@ -606,6 +607,51 @@ def gen_task(loader, check, what, replay_on=True):
      "parse_unbounded": gen_parser_parse_unbounded}[what](loader, check, replay_on)
 
 
+def gen_native_bounded(loader, check, replay_on=True):
+    """BOUNDED native stand-in (never counted as proved): the real Parser.parse, with the real pool and the real grammar, on synthetic
+    inputs of n instructions for n around the batch / pool sizes; every name must come back with its own number of parts.  It decides
+    nothing about schedules (T-POOL) - it guards the part of Parser.parse the contracts abstract: how work is handed to the pool."""
+    import contextlib
+    import io
+    import multiprocessing
+    cwd = os.getcwd()
+    os.chdir(loader.repo)
+    try:
+        from rzilcompiler.Parser import Parser
+        cpus = multiprocessing.cpu_count()
+        sizes = sorted({1, 2, 5, cpus + 1, 4 * cpus + 1, 4 * cpus + 5})
+        for n in sizes:
+            behs = {f"X_{i}": (["{ RdV = RsV; }"] if i % 3 else ["{ RdV = RsV; }", "{ RdV = RtV; }"]) for i in range(n)}
+            with contextlib.redirect_stdout(io.StringIO()), contextlib.redirect_stderr(io.StringIO()):
+                res = Parser().parse(dict(behs))
+            missing = sorted(set(behs) - set(res))
+            extra = sorted(set(res) - set(behs))
+            wrong = sorted(k for k in behs if k in res and (res[k].exception is not None or len(res[k].asts) != len(behs[k])))
+            check.ob("Parser.parse#bounded-native: every instruction comes back under its name with one tree per part", f"{n} instructions", [],
+                     not missing and not extra and not wrong, bounded=True, observed_natively=True,
+                     detail=f"missing {missing[:5]} extra {extra[:5]} wrong part count {wrong[:5]}",
+                     replay=("c18.native", lambda mdl, n=n: {"n": n}) if replay_on else None)
+            check.instances_declared += 1
+            check.instances_generated += 1
+        check.bounded.append(f"Parser.parse run natively (real pool, real grammar) on synthetic inputs of {sizes} instructions: names and part counts preserved")
+    finally:
+        os.chdir(cwd)
+
+
+@replay.register("c18.native")
+def replay_native(a):
+    import contextlib
+    import io
+    from rzilcompiler.Parser import Parser
+    n = a["n"]
+    behs = {f"X_{i}": (["{ RdV = RsV; }"] if i % 3 else ["{ RdV = RsV; }", "{ RdV = RtV; }"]) for i in range(n)}
+    with contextlib.redirect_stdout(io.StringIO()), contextlib.redirect_stderr(io.StringIO()):
+        res = Parser().parse(dict(behs))
+    missing = sorted(set(behs) - set(res))
+    wrong = sorted(k for k in behs if k in res and (res[k].exception is not None or len(res[k].asts) != len(behs[k])))
+    return bool(missing or wrong), f"Parser.parse of {n} instructions: missing {missing[:6]}, wrong part count {wrong[:6]}"
+
+
 def generate_reduced(loader, check):
     gen_parse_single(loader, check, False, max_parts=2)
     gen_parser_parse(loader, check, False, max_insns=2)
@@ -625,6 +671,7 @@ def run(check: Check):
                  "exit). Additionally every length 0..4 / 0..3 is enumerated concretely (these instances have native replay).")
     check.run_parallel("contracts.c18", "gen_task", [{"what": w} for w in ("state", "parse_single", "parse", "parse_single_unbounded", "parse_unbounded")],
                        workers=WORKERS)
+    gen_native_bounded(Loader(), check)
     run_mutants(check, MUTANTS, "contracts.c18", "generate_reduced")
     return check.finish(
         level="proof",
